@@ -1,0 +1,165 @@
+// Copyright 2024 The Outline Authors
+//
+// Licensed under the Apache License, Version 2.0 (the "License");
+// you may not use this file except in compliance with the License.
+// You may obtain a copy of the License at
+//
+//      https://www.apache.org/licenses/LICENSE-2.0
+//
+// Unless required by applicable law or agreed to in writing, software
+// distributed under the License is distributed on an "AS IS" BASIS,
+// WITHOUT WARRANTIES OR CONDITIONS OF ANY KIND, either express or implied.
+// See the License for the specific language governing permissions and
+// limitations under the License.
+
+//go:build verif
+
+package main
+
+// Line-protocol driver around RunOutlineServer / loadConfig / Stop for the verification harness
+// (build tag `verif`; compiled with `go test -c -tags verif`, run with VERIF_DRIVER=1). One command
+// per line on stdin, one answer per line on stdout:
+//
+//	start <config file> <replay history> <nat timeout ms>   -> ok | err <message>
+//	load <config file>                                      -> ok | err <message>
+//	stop                                                    -> ok | err <message>
+//	events                                                  -> the metric events recorded since the last call, ';'-separated
+//	goroutines                                              -> <count>
+//	quit
+import (
+	"bufio"
+	"fmt"
+	"net"
+	"os"
+	"runtime"
+	"strconv"
+	"strings"
+	"sync"
+	"testing"
+	"time"
+
+	"github.com/Jigsaw-Code/outline-ss-server/service"
+	"github.com/Jigsaw-Code/outline-ss-server/service/metrics"
+)
+
+type verifMetrics struct {
+	mu     sync.Mutex
+	events []string
+}
+
+func (m *verifMetrics) add(format string, a ...any) {
+	m.mu.Lock()
+	m.events = append(m.events, fmt.Sprintf(format, a...))
+	m.mu.Unlock()
+}
+
+func (m *verifMetrics) take() []string {
+	m.mu.Lock()
+	defer m.mu.Unlock()
+	e := m.events
+	m.events = nil
+	return e
+}
+
+type verifTCPConn struct {
+	m      *verifMetrics
+	local  string
+	remote string
+}
+
+func (c *verifTCPConn) AddAuthenticated(accessKey string) {
+	c.m.add("tcpauth %s %s %q", c.local, c.remote, accessKey)
+}
+func (c *verifTCPConn) AddClosed(status string, data metrics.ProxyMetrics, duration time.Duration) {
+	c.m.add("tcpclosed %s %s %s", c.local, c.remote, status)
+}
+func (c *verifTCPConn) AddProbe(status, drainResult string, clientProxyBytes int64) {
+	c.m.add("tcpprobe %s %s %s", c.local, c.remote, status)
+}
+
+type verifUDPConn struct {
+	m      *verifMetrics
+	client string
+}
+
+func (c *verifUDPConn) AddPacketFromClient(status string, clientProxyBytes, proxyTargetBytes int64) {
+	c.m.add("udpclient %s %s", c.client, status)
+}
+func (c *verifUDPConn) AddPacketFromTarget(status string, targetProxyBytes, proxyClientBytes int64) {}
+func (c *verifUDPConn) RemoveNatEntry()                                                            { c.m.add("udpremove %s", c.client) }
+
+func (m *verifMetrics) AddOpenTCPConnection(conn net.Conn) service.TCPConnMetrics {
+	c := &verifTCPConn{m: m, local: conn.LocalAddr().String(), remote: conn.RemoteAddr().String()}
+	m.add("tcpopen %s %s", c.local, c.remote)
+	return c
+}
+func (m *verifMetrics) AddUDPNatEntry(clientAddr net.Addr, accessKey string) service.UDPConnMetrics {
+	m.add("udpadd %s %q", clientAddr.String(), accessKey)
+	return &verifUDPConn{m: m, client: clientAddr.String()}
+}
+func (m *verifMetrics) AddCipherSearch(proto string, accessKeyFound bool, timeToCipher time.Duration) {
+	m.add("search %s %v", proto, accessKeyFound)
+}
+
+func TestVerifDriver(t *testing.T) {
+	if os.Getenv("VERIF_DRIVER") == "" {
+		t.Skip("verification driver: set VERIF_DRIVER=1")
+	}
+	vm := &verifMetrics{}
+	var server *OutlineServer
+	in := bufio.NewScanner(os.Stdin)
+	in.Buffer(make([]byte, 1<<20), 1<<20)
+	out := bufio.NewWriter(os.Stdout)
+	reply := func(format string, a ...any) {
+		fmt.Fprintf(out, "VERIF> "+strings.ReplaceAll(fmt.Sprintf(format, a...), "\n", " ")+"\n")
+		out.Flush()
+	}
+	for in.Scan() {
+		f := strings.Fields(in.Text())
+		if len(f) == 0 {
+			continue
+		}
+		switch f[0] {
+		case "start":
+			replay, _ := strconv.Atoi(f[2])
+			natMs, _ := strconv.Atoi(f[3])
+			s, err := RunOutlineServer(f[1], time.Duration(natMs)*time.Millisecond, newPrometheusServerMetrics(), vm, replay)
+			if err != nil {
+				reply("err %v", err)
+			} else {
+				server = s
+				reply("ok")
+			}
+		case "load":
+			if server == nil {
+				reply("err no server")
+				continue
+			}
+			if err := server.loadConfig(f[1]); err != nil {
+				reply("err %v", err)
+			} else {
+				reply("ok")
+			}
+		case "stop":
+			if server == nil {
+				reply("err no server")
+				continue
+			}
+			if err := server.Stop(); err != nil {
+				reply("err %v", err)
+			} else {
+				server.stopConfig = nil
+				reply("ok")
+			}
+		case "events":
+			reply("%s", strings.Join(vm.take(), ";"))
+		case "goroutines":
+			reply("%d", runtime.NumGoroutine())
+		case "quit":
+			reply("bye")
+			return
+		default:
+			reply("err unknown command")
+		}
+	}
+}
